@@ -24,6 +24,8 @@ func main() {
 		workerMain(os.Args[2:])
 	case "one":
 		oneMain(os.Args[2:])
+	case "runitems":
+		os.Exit(runitemsMain())
 	case "replay":
 		os.Exit(replayMain(os.Args[2]))
 	case "selftest":
